@@ -19,6 +19,7 @@ import CaddyModel.C12.CasProof
 import CaddyModel.C12.IdResolve
 import CaddyModel.C12.SourceFacts
 import CaddyModel.C12.UniqueLemmas
+import CaddyModel.C12.RegionsProof
 import CaddyModel.C12.Witness
 
 namespace CaddyModel.C12
@@ -311,6 +312,72 @@ theorem adapt_changes_nothing (env : Env) (r : Req) (s : State) (hp : r.path = a
   unfold serve
   rw [hp, hr]
   exact handleAdapt_pure env r s
+
+/-! ### interleavings of lock regions (`Regions.lean`) -/
+
+theorem serial_preserves_reachable {env : Env} : ∀ (reqs : List Req) {s : State}, Reachable env s →
+    Reachable env (serial env reqs s)
+  | [], _, h => h
+  | r :: rest, _, h => by
+    simp only [serial, List.foldl_cons]
+    exact serial_preserves_reachable rest (.step r h)
+
+/-- **every interleaving of lock regions is a serial history.** Any number of threads send
+    any requests; a /config/ or /load request is one critical section, an /id/ request two
+    (index read; handler on the rewritten path), and the regions interleave in any order.
+    Then the state at the end is the state a *serial* history produces: the requests that took
+    effect, one after the other, each atomic — an /id/ request counted as the direct request to
+    the path it had been resolved to, at the moment its second region ran. -/
+theorem interleaving_is_serial_history (env : Env) (s0 : State) (sched : List (Nat × Req)) :
+    (regionRun env sched (RSys.start s0)).s = serial env (regionRun env sched (RSys.start s0)).hist s0 :=
+  regionRun_serial sched (RSys.start s0) rfl
+
+/-- … hence every state any interleaving passes through is a reachable state: the document,
+    the id index, the loaded configuration and the running apps agree, rejected requests have
+    changed nothing, no object has a key twice — all theorems over histories apply. -/
+theorem interleaved_states_are_reachable {env : Env} {s0 : State} (h : Reachable env s0) (sched : List (Nat × Req)) :
+    Reachable env (regionRun env sched (RSys.start s0)).s := by
+  rw [interleaving_is_serial_history]
+  exact serial_preserves_reachable _ h
+
+/-- run back to back, the two regions of an /id/ request are the atomic request `serve` models -/
+theorem id_request_back_to_back_is_atomic (env : Env) (y : RSys) (c : Nat) (r r' : Req)
+    (hidle : y.pend c = .idle) (hid : route r.path = .id) :
+    (regionStep env (regionStep env y c r) c r').s = (serve env r y.s).1 ∧
+    (regionStep env (regionStep env y c r) c r').done = y.done ++ [(c, r, (serve env r y.s).2)] :=
+  regions_back_to_back env y c r r' hidle hid
+
+/-- **an accepted If-Match write was computed from the current document.** Whatever ran
+    between the client's GET and the critical section in which its write executes — and,
+    for a write through /id/, between the index read and that section: if the write is
+    answered 200, then *in the state of that critical section* the value at the If-Match path
+    hashes to the If-Match hash. -/
+theorem accepted_if_match_write_used_current_document {env : Env} {r : Req} {p : Bytes} {s : State} {q h : Bytes}
+    (hq : q ≠ []) (hqs : noSpace q) (hh : h ≠ []) (hhs : noSpace h) (hifm : r.ifMatch = mkEtag q h)
+    (hacc : (handleConfig env r p s).2 = .okWrite) :
+    ∃ out, (access .get q .empty s.rawCfg).2 = .ok out ∧ env.hash out = h := by
+  unfold handleConfig at hacc
+  split at hacc
+  · split at hacc <;> simp at hacc
+  · simp at hacc
+  · split at hacc
+    · simp at hacc
+    · split at hacc
+      · simp at hacc
+      · next m _ _ =>
+        simp only at hacc
+        rw [hifm] at hacc
+        exact if_match_succeeds_only_if_unchanged hq hqs hh hhs ((changeResp_ok_iff _).1 hacc)
+
+/-- the same, as it appears in an interleaving: the second region of a conditional write
+    through /id/ checks the document as it is *then* -/
+theorem id_write_checks_current_document {env : Env} {r : Req} {p : Bytes} {s : State} {q h : Bytes}
+    (hq : q ≠ []) (hqs : noSpace q) (hh : h ≠ []) (hhs : noSpace h) (hifm : r.ifMatch = mkEtag q h)
+    (hroute : route p = .config) (hacc : (finishId env r (.to p) s).2.1 = .okWrite) :
+    ∃ out, (access .get q .empty s.rawCfg).2 = .ok out ∧ env.hash out = h := by
+  unfold finishId at hacc
+  simp only [hroute] at hacc
+  exact accepted_if_match_write_used_current_document hq hqs hh hhs hifm hacc
 
 /-! ### unchanged configurations, forced reloads -/
 
@@ -729,5 +796,44 @@ example : (serve exEnv (exReq .patch pIdXA0 (.val .null)) exLoaded).2 = .okWrite
 -- unchanged / forced: PATCHing the loaded document with itself
 example : (serve exEnv (exReq .patch pRoot (.val exDoc)) exLoaded) = (exLoaded, .okWrite) := by decide
 example : (serve exEnv ⟨.patch, pRoot, .val exDoc, [], true, .json⟩ exLoaded).1.loads = 2 := by decide
+
+-- interleavings of lock regions: `{"apps":{"c12":{"a":[{"@id":"x","v":1}]}}}`; thread 0 PATCHes /id/x,
+-- thread 1 inserts an element in front of it between thread 0's two regions
+def xObj : Json := .obj [(idKey, .str kX), ([118], .num [49])]
+def yObj : Json := .obj [(idKey, .str [121])]
+def raceDoc : Json := .obj [(kApps, .obj [(kC12, .obj [(kA, .arr [xObj])])])]
+def hashRace : Option Json → Bytes := fun o => if o = some xObj then [120] else [111]
+def raceEnv : Env := ⟨hashRace, fun _ => true, fun _ => none⟩
+def raceLoaded : State := (serve raceEnv (exReq .post pRoot (.val raceDoc)) initState).1
+def pIdX : Bytes := [47, 105, 100, 47, 120]                       -- "/id/x"
+def patchX (ifm : Bytes) : Req := ⟨.patch, pIdX, .val (.obj [([118], .num [50])]), ifm, false, .json⟩
+def insertY : Req := ⟨.put, pA0, .val yObj, [], false, .json⟩
+def raceSched (ifm : Bytes) : List (Nat × Req) := [(0, patchX ifm), (1, insertY), (0, patchX ifm)]
+/-- **/id/ resolution is not atomic with the write** (an observation the region model makes
+    precise, not a clause of the property: its concurrency clause is about conditional
+    writers). An UNCONDITIONAL write through /id/ can hit a neighbour: the id is resolved to
+    `/config/apps/c12/a/0` in the first region, another thread inserts an element in front,
+    and the second region patches index 0 — the inserted object; the object tagged "x" is
+    untouched. The serial history it amounts to says so: `PATCH /config/apps/c12/a/0` after the
+    insert. -/
+theorem id_resolution_is_not_atomic_with_the_write :
+    cfgOf (regionRun raceEnv (raceSched []) (RSys.start raceLoaded)).s.rawCfg =
+      .obj [(kApps, .obj [(kC12, .obj [(kA, .arr [.obj [([118], .num [50])], xObj])])])] ∧
+    (regionRun raceEnv (raceSched []) (RSys.start raceLoaded)).hist = [insertY, { patchX [] with path := pA0 }] := by
+  decide
+
+/-- … and If-Match protects against exactly that: the same schedule with the ETag of an earlier
+    `GET /id/x` ("/config/apps/c12/a/0 <hash of the x object>") is refused with 412 and the
+    document holds the inserted object and the untouched x. -/
+theorem id_race_is_refused_with_if_match :
+    ((regionRun raceEnv (raceSched (mkEtag pA0 (hashRace (some xObj)))) (RSys.start raceLoaded)).done.map (·.2.2))
+      = [.okWrite, .fail .precondition] ∧
+    cfgOf (regionRun raceEnv (raceSched (mkEtag pA0 (hashRace (some xObj)))) (RSys.start raceLoaded)).s.rawCfg =
+      .obj [(kApps, .obj [(kC12, .obj [(kA, .arr [yObj, xObj])])])] := by
+  decide
+
+-- back to back the same request patches the tagged object
+example : cfgOf (regionRun raceEnv [(0, patchX []), (0, patchX [])] (RSys.start raceLoaded)).s.rawCfg =
+    .obj [(kApps, .obj [(kC12, .obj [(kA, .arr [.obj [([118], .num [50])]])])])] := by decide
 
 end CaddyModel.C12
